@@ -176,6 +176,15 @@ func c07build(c *Ctx, r *mon.Rand, i int) *refMsg {
 			m.plans = c07countersign(c, r, &wm.L, ParentFields{Kind: refcose.PSign, Prot: wm.L.Content(), Payload: payload}, depth, scramble, ext)
 		}
 		m.kind = fmt.Sprintf("sign-n%d", n)
+		if i%9 == 4 {
+			// the same COSE_Signature twice (two copies merged by an aggregator): the structure rules say
+			// nothing about repeated entries, each is a signature like any other
+			j := i / 9 % n
+			wm.Sigs = append(wm.Sigs, wm.Sigs[j])
+			m.keys = append(m.keys, m.keys[j])
+			m.sigPlans = append(m.sigPlans, m.sigPlans[j])
+			m.kind += "+repeated-entry"
+		}
 		m.bytes = wm.Bytes()
 		m.layers = []*gen.WLayer{&wm.L}
 		for _, s := range wm.Sigs {
